@@ -8,6 +8,7 @@ concurrency campaign and stated as such in the evidence (partial).
 -/
 import AskarModel.Model.History
 import AskarModel.Lemmas.History
+import AskarModel.Lemmas.KeyCacheConc
 
 namespace Askar.Store
 
@@ -70,3 +71,124 @@ example : accept ["k"] [("k", 0)] [⟨[("k", 0)], [("k", 1)]⟩, ⟨[("k", 1)], 
 example : accept ["k"] [("k", 0)] [⟨[("k", 0)], [("k", 1)]⟩, ⟨[("k", 0)], [("k", 1)]⟩] [("k", 1)] = false := by decide
 
 end Askar.History
+
+/-! ## Profile operations through the shared key cache (D35)
+
+Third layer: the protocol between the `profiles` table and the store handle's `KeyCache`
+(`resolve_profile_key`, `create_profile`, `remove_profile` of the SQLite backend), modelled at the
+granularity of its atomic actions (`Model/KeyCacheConc.lean`).  With the removal guard the cache is
+coherent with the table in EVERY interleaving, so that at quiescence opening a profile gives exactly what
+the serial semantics gives; without it two concrete schedules leave a removed profile open for ever. -/
+namespace Askar.KeyCacheConc
+section KeyCache
+
+/-- The invariant holds in every state reachable, by ANY schedule of the repaired protocol, from any
+    admissible initial state (nothing in flight, cache ⊆ table, names unique):
+    (a) every cache entry is a row of the table, or a remove of its name is between DELETE and evict;
+    (b) every insert-to-be whose captured counter value is still current is such an entry;
+    (c) names in the table are unique;  plus: one call per thread, captured counter values ≤ the counter. -/
+theorem keycache_inv_guarded (s0 : St) (h0 : Init s0) (σs : List Step) : Inv (run true s0 σs).1 :=
+  run_inv h0.inv σs
+
+/-- in particular from the empty store -/
+theorem keycache_inv_guarded_init (σs : List Step) : Inv (run true init σs).1 :=
+  run_inv init_Init.inv σs
+
+/-- At quiescence the cache holds only rows of the table (same name, same id, same key). -/
+theorem keycache_quiescent_coherent (s0 : St) (h0 : Init s0) (σs : List Step)
+    (hq : quiescent (run true s0 σs).1 = true) :
+    ∀ e, e ∈ (run true s0 σs).1.cache → e ∈ (run true s0 σs).1.db :=
+  (run_inv h0.inv σs).cache_sub_db hq
+
+/-- At quiescence a profile can be opened iff it is listed, and with the id and key of its row: a removed
+    profile can no longer be opened, a listed one can — what the serial semantics gives. -/
+theorem open_iff_listed_at_quiescence (s0 : St) (h0 : Init s0) (σs : List Step)
+    (hq : quiescent (run true s0 σs).1 = true) (p : Name) :
+    (∀ pid key, openResult (run true s0 σs).1 p = .resolved p pid key ↔ (p, pid, key) ∈ (run true s0 σs).1.db) ∧
+    (openResult (run true s0 σs).1 p = .notFound p ↔ ∀ pid key, (p, pid, key) ∉ (run true s0 σs).1.db) :=
+  ⟨fun pid key => (run_inv h0.inv σs).open_resolved_iff hq p pid key, (run_inv h0.inv σs).open_notFound_iff hq p⟩
+
+/-- `openResult` is what `resolve_profile_key` returns when its four steps run with nothing in between
+    (for either variant of the protocol). -/
+theorem openResult_is_resolve_alone (guard : Bool) (s : St) (hq : quiescent s = true) (t : Tid) (p : Name) :
+    (run guard s (resolveAlone t p)).2.filterMap id = [openResult s p] :=
+  resolveAlone_returns guard s hq t p
+
+/-- Without the guard (the protocol before the repair, defect D35) both races end, from the empty store,
+    in a quiescent state whose cache holds a profile that is not in the table, and opening it succeeds:
+    the create/remove race and the resolve/remove race. -/
+theorem keycache_unguarded_stale :
+    (let s := (run false init raceCreateRemove).1
+     quiescent s = true ∧ (7, 1, 0) ∈ s.cache ∧ s.db = [] ∧ openResult s 7 = .resolved 7 1 0) ∧
+    (let s := (run false init raceResolveRemove).1
+     quiescent s = true ∧ (7, 1, 0) ∈ s.cache ∧ s.db = [] ∧ openResult s 7 = .resolved 7 1 0) := by
+  decide
+
+/-- hence the coherence statement is false for the unrepaired protocol -/
+theorem keycache_unguarded_incoherent :
+    ¬ ∀ (σs : List Step), quiescent (run false init σs).1 = true →
+        ∀ e, e ∈ (run false init σs).1.cache → e ∈ (run false init σs).1.db := by
+  intro h
+  exact absurd (h raceCreateRemove (by decide) (7, 1, 0) (by decide)) (by decide)
+
+/-- The same two schedules under the guard: both inserts are refused. -/
+theorem keycache_guarded_races :
+    (run true init raceCreateRemove).1.cache = [] ∧ openResult (run true init raceCreateRemove).1 7 = .notFound 7 ∧
+    (run true init raceResolveRemove).1.cache = [] ∧ openResult (run true init raceResolveRemove).1 7 = .notFound 7 := by
+  decide
+
+/-- The repair does not disable the cache: in a schedule without any remove step, a resolve or create that
+    completes successfully leaves its profile cached — with the id and key it returned — in the final state. -/
+theorem keycache_guarded_progress (s0 : St) (h0 : Init s0) (pre post : List Step) (σ : Step)
+    (hnr : ∀ x ∈ pre ++ σ :: post, x.isRemove = false) (p : Name) (pid : Pid) (key : KeyId)
+    (hret : (step true (run true s0 pre).1 σ).2 = some (.resolved p pid key) ∨
+            (step true (run true s0 pre).1 σ).2 = some (.created p pid key)) :
+    lookupRow (run true s0 (pre ++ σ :: post)).1.cache p = some (pid, key) :=
+  progress h0 pre post σ hnr p pid key hret
+
+/-- On the current tree (the flag is read from the source): -/
+theorem keycache_current (h : currentGuard = true) (s0 : St) (h0 : Init s0) (σs : List Step)
+    (hq : quiescent (run currentGuard s0 σs).1 = true) (p : Name) :
+    (∀ pid key, openResult (run currentGuard s0 σs).1 p = .resolved p pid key ↔
+      (p, pid, key) ∈ (run currentGuard s0 σs).1.db) ∧
+    (openResult (run currentGuard s0 σs).1 p = .notFound p ↔ ∀ pid key, (p, pid, key) ∉ (run currentGuard s0 σs).1.db) := by
+  rw [h] at hq ⊢
+  exact open_iff_listed_at_quiescence s0 h0 σs hq p
+
+/-- Either way the verdict on the current tree is decided by the flag. -/
+theorem keycache_status :
+    (currentGuard = true ∧ ∀ σs, quiescent (run currentGuard init σs).1 = true →
+        ∀ e, e ∈ (run currentGuard init σs).1.cache → e ∈ (run currentGuard init σs).1.db) ∨
+    (currentGuard = false ∧ ¬ ∀ σs, quiescent (run currentGuard init σs).1 = true →
+        ∀ e, e ∈ (run currentGuard init σs).1.cache → e ∈ (run currentGuard init σs).1.db) := by
+  cases hg : currentGuard with
+  | true => exact Or.inl ⟨rfl, fun σs hq => keycache_quiescent_coherent init init_Init σs hq⟩
+  | false => exact Or.inr ⟨rfl, keycache_unguarded_incoherent⟩
+
+/-! Non-vacuity. -/
+/-- the hypotheses are satisfiable: the empty store and a re-opened one are admissible -/
+example : Init init := init_Init
+example : Init reopened := ⟨rfl, nofun, by decide⟩
+/-- four threads, two creates, a remove, two resolves — the racing inserts of the removed profile are
+    refused, the later ones accepted; the run ends quiescent with a non-empty, coherent cache -/
+example :
+    (let r := run true init busySchedule
+     quiescent r.1 = true ∧ r.1.cache = [(8, 1, 1)] ∧ r.1.db = [(8, 1, 1)] ∧ r.1.removals = 1 ∧
+     r.2.filterMap id = [.removed 7 true, .created 7 1 0, .resolved 7 1 0, .created 8 1 1, .resolved 8 1 1]) := by
+  decide
+/-- the resolve/remove race on a re-opened store, unguarded and guarded -/
+example : (7, 1, 0) ∈ (run false reopened raceResolveRemoveReopened).1.cache ∧
+    (run false reopened raceResolveRemoveReopened).1.db = [] ∧
+    (run true reopened raceResolveRemoveReopened).1.cache = [] := by decide
+/-- what the stale entry is worth: ids are reused (no AUTOINCREMENT), so after the race the next profile
+    created (8) gets the id of the removed one (7), and 7 still opens — onto the rows of 8 -/
+example :
+    (let s := (run false init (raceCreateRemove ++ thenCreateOther)).1
+     quiescent s = true ∧ s.db = [(8, 1, 1)] ∧ openResult s 7 = .resolved 7 1 0 ∧ openResult s 8 = .resolved 8 1 1) := by
+  decide
+/-- the progress theorem's hypotheses are satisfiable: a create and a resolve, no remove -/
+example : (step true (run true init [.createStart 0 7, .createInsert 0]).1 (.createCache 0)).2 = some (.created 7 1 0) := by
+  decide
+
+end KeyCache
+end Askar.KeyCacheConc
